@@ -353,7 +353,10 @@ def replay_sequence(run, ct, rng, pool, seq, cfg):
                         sharing = {pool[i].kind for i in range(len(pool)) if hashes[i] == hashes[q - 1]}
                         fam = {"base", "perm-within-tensors", "perm-output"}
                         pair_tag = {"pair:same-wiring-sizes-on-other-edges"} \
-                            if ("wiring-renamed-sizes-kept" in sharing and sharing <= fam | {"wiring-renamed-sizes-kept"}) else set()
+                            if ("wiring-renamed-sizes-kept" in sharing
+                                and sharing <= fam | {"wiring-renamed-sizes-kept", "tensors-reordered"}) else set()
+                        # (for a symmetric enough wiring the member with its tensors in another order has the same
+                        # name-free fingerprint too; the entry that does not fit is still the one of the renamed member)
                         _viol(f"stored score {answer['score']:.6f} is not the score {sc:.6f} of the answer rebuilt for the "
                                       f"query {net.kind} (eq={net.eq()} sizes={net.c_sizes()}): entry shared between "
                                       f"contractions for which it is not equally valid (sharing the fingerprint: {sorted(sharing)})", desc,
@@ -411,11 +414,11 @@ def run(run):
     seqs = sequences_from_tlc(run)
     run.extra["sequences_enumerated_by_tlc"] = len(seqs)
     if quick:
-        seqs = rng.sample(seqs, 90)
+        seqs = rng.sample(seqs, 150)
     results = []
     pools = [make_pool(rng) for _ in range(3 if quick else 10)]
     for seq in seqs:
-        cfg = {"kind": rng.choice(["hyper", "hyper", "hyper", "rgreedy", "rgreedy", "hypercomp"]), "chi": rng.choice([None, 2, 2, 3, 4]),
+        cfg = {"kind": rng.choice(["hyper", "hyper", "hyper", "hyper", "rgreedy", "rgreedy", "hypercomp"]), "chi": rng.choice([None, 2, 2, 3, 4]),
                "cminimize": rng.choice(["peak-compressed", "peak-compressed", "size-compressed"]), "hash": rng.choice(["a", "a", "b"]),
                "disk": rng.random() < 0.7, "split": rng.choice([True, False, "auto"]),
                "overwrite": rng.choice(["no", "no", "yes", "improved", "improved"]),
@@ -442,7 +445,7 @@ def run(run):
     judge(run, results)
     fresh_readers(run, ct, rng, pools, quick)
     run.cov["rule"] = ("query sequences (length 3 + restarts) over a pool of 7 similar contractions, all enumerated by TLC from "
-                       "Reusable.tla (quick: 90 sampled) x random configuration {hyper | random-greedy, hash a|b, directory or memory, "
+                       "Reusable.tla (quick: 150 sampled) x random configuration {hyper | random-greedy, hash a|b, directory or memory, "
                        "directory_split, overwrite, cache_only on the last query, search | __call__}; distinct by (sequence, config, pool)")
     run.assumptions += ["SHA-1 is injective on canonical forms", "restart = a new optimizer object on the same directory (a fresh "
                         "process shares nothing else with it)"]
